@@ -11,7 +11,7 @@ from bridge_env.network_bridge.server import PlayerThread, Server
 from pyvc.dsl import (Alias, Bool, Const, DecodedStr, Dict, Enum, Ext, Int, IntElem, Obj, OneOf, Opt,
                       Seq, Text, TraceList, TraceReset, Tuple, contract, klass, lemma, transparent,
                       LoopContract)
-from pyvc.speclib import (conj, disj, forall, iff, implies, ite, opt_or, same, sock_sent,
+from pyvc.speclib import (calls_since, conj, disj, forall, iff, implies, ite, opt_or, same, sock_sent,
                           starts_with)
 import spec.protocol as PR
 import spec.table as G
@@ -28,7 +28,7 @@ SeatQueue = Ext('queue', dict(out=TraceList(), gets=TraceList(), interruptible=C
 SeatTable = Dict({p: Opt(Text(excl=NAME_EXCL)) for p in Player})
 PTShape = Obj(PlayerThread, dict(
     connection_socket=SocketShape, connection=Alias('connection_socket'),
-    event_sync=EventShape, event_thread=EventShape, team_names=SeatTable,
+    event_sync=EventShape, event_thread=Ext('event', dict(ops=TraceList())), team_names=SeatTable,
     _sent_message_queues=Dict({p: SeatQueue for p in Player}),
     _received_message_queues=Dict({p: SeatQueue for p in Player}),
     players_event=Dict({p: EventShape for p in Player}),
@@ -110,7 +110,8 @@ class _connect:
     returns = Bool()
     raises = {Exception: 'onlyif'}
     exc_havoc = True
-    modifies = ['self.connection_socket', 'self.team_names', 'self.player', 'self.name']
+    modifies = ['self.connection_socket', 'self.team_names', 'self.player', 'self.name',
+                'self.event_thread.ops']
     note = ('the request is whatever parse_connection_info returns for the first message (its '
             'contract: C19); raises only for a malformed request or a closed connection')
 
@@ -127,6 +128,12 @@ class _connect:
                                  self.connection_socket.closed,
                                  len(sent(self)) == len(sent(old.self)) + 1,
                                  starts_with(sent(self)[-1], 'ERROR: ')))
+
+    # C20 ("... and the server keeps accepting"), safety half: whatever the decision -- refused,
+    # or seated -- the main thread, which waits for this verdict before it accepts the next
+    # connection, is released exactly once
+    def ensures_main_thread_released_once(self, old):
+        return self.event_thread.ops == old.self.event_thread.ops + ['set']
 
     # otherwise the seat is given to this client (and to nobody else: it was free), the other
     # seats are not touched by this thread, and "<Seat> <team> seated" is the first reply
@@ -213,6 +220,11 @@ class _seat_bidding:
     loops = {0: LoopContract(invariant=_seat_bid_inv, havoc_heap=SEAT_RESET,
                              body_ensures=dict(relay_step=_seat_bid_step))}
 
+    # C10: the seat goes on to the play unless the main thread reported an illegal call / an error:
+    # the auction relay ends with success exactly on the end-of-auction marker
+    def ensures_success_iff_end_marker(result, frame):
+        return iff(result, frame.message == M.NULL)
+
 
 def _seat_play_outer_inv(self, declarer, dummy, idx):
     return conj(pt_inv(self), dummy is G.partner(declarer))
@@ -238,12 +250,23 @@ def _seat_card_step(self, iter, trick_num, i, declarer, dummy):
                         [line('Dummy to lead')]) if i == 0 else []
     prompt_first = len(s) >= len(expect_prompt) and s[:len(expect_prompt)] == expect_prompt
     relay_last = (len(g) != 1) or (len(s) >= 1 and s[-1] == line(g[0]))
+    # the opening lead: every seat but dummy then takes ONE more item from the main thread --
+    # dummy's cards -- and sends it on as the last thing of this step (an error line may precede
+    # it if the client did not ask for it); dummy itself gets nothing more
+    disclose = conj(opening, me is not dummy)
+    n_extra = ite(disclose, 1, 0)
+    dummy_last = len(g) >= 1 and len(s) >= 1 and s[-1] == line(g[-1])
+    relayed_first = len(g) >= 1 and ((len(s) >= 1 and s[0] == line(g[0])) or
+                                     (len(s) >= 2 and s[1] == line(g[0])))
     return conj(
         implies(disj(i_play, i_play_dummy), conj(
-            len(to_main(self)) == 1, prompt_first,
-            implies(not opening, conj(len(s) == len(expect_prompt), len(g) == 0)))),
+            len(to_main(self)) == 1, prompt_first, len(g) == n_extra,
+            implies(not disclose, len(s) == len(expect_prompt)),
+            implies(disclose, dummy_last))),
         implies(conj(not i_play, not i_play_dummy), conj(
-            len(to_main(self)) == 0, implies(not opening, relay_last))))
+            len(to_main(self)) == 0, len(g) == 1 + n_extra,
+            implies(not disclose, relay_last),
+            implies(disclose, conj(relayed_first, dummy_last)))))
 
 
 def _four_cards(i):
@@ -266,16 +289,20 @@ class _seat_playing:
 
     # C10: the play relayed to a seat is thirteen tricks (of four cards: per-iteration clause)
     def ensures_thirteen_tricks(result, frame):
-        return implies(result, frame.trick_num == 13)
+        return conj(result, frame.trick_num == 13)
 
 
 def _seat_run_inv(self):
     return pt_inv(self)
 
 
-def _board_is_played_iff_not_passed_out(message, passed_out):
-    """C10/C08: the play of a board is relayed exactly when the auction did not end passed out."""
-    return iff(passed_out, message == M.PASSED_OUT)
+def _board_is_played_iff_not_passed_out(iter, message, passed_out):
+    """C10/C08: each pass is one board: the deal, the auction relay, and the play relay exactly
+    when the auction did not end passed out (as the main thread's marker says)."""
+    return conj(iff(passed_out, message == M.PASSED_OUT),
+                calls_since(iter, PlayerThread._deal) == 1,
+                calls_since(iter, PlayerThread._bidding_phase) == 1,
+                calls_since(iter, PlayerThread._playing_phase) == ite(passed_out, 0, 1))
 
 
 @contract('bridge_env.network_bridge.server.PlayerThread.run', props=['C10'])
